@@ -84,9 +84,16 @@ def translate():
     if rc != 0:
         return None, out
     try:
-        return json.loads(out), ""
+        tr = json.loads(out)
     except ValueError:
         return None, out
+    # leaf translator (Rust -> Gallina for small integer functions), Gen/Leaf*.v
+    rc, lout, _ = sh([sys.executable, os.path.join(ROOT, "tools", "gen_leaf.py")], timeout=120)
+    try:
+        tr["leaf"] = json.loads(lout) if rc == 0 else {"failed": {"gen_leaf.py": lout[-300:]}, "translated": [], "meta": {}}
+    except ValueError:
+        tr["leaf"] = {"failed": {"gen_leaf.py": lout[-300:]}, "translated": [], "meta": {}}
+    return tr, ""
 
 
 def forbidden_grep():
@@ -136,7 +143,12 @@ def build_coq(cfg, clean=False):
         # model/run first, so that the evaluator is available even when a proof breaks
         rc_run, out_run, t_run = sh(["make", "-C", COQ, "-j%d" % NPROC, targets[1]], timeout=1500)
         rc, out, t = sh(["make", "-C", COQ, "-j%d" % NPROC, "-k", targets[0]], timeout=1800)
-    return {"run_ok": rc_run == 0, "run_out": out_run, "props_ok": rc == 0, "props_out": out, "wall": t_run + t}
+        leaf = {}
+        for tgt in sorted(set(cfg.get("leaf_targets", []))):
+            lrc, lout, lt = sh(["make", "-C", COQ, "-j%d" % NPROC, tgt], timeout=900)
+            leaf[tgt] = (lrc == 0, lout)
+            t += lt
+    return {"run_ok": rc_run == 0, "run_out": out_run, "props_ok": rc == 0, "props_out": out, "wall": t_run + t, "leaf": leaf}
 
 
 def coq_error_summary(out):
@@ -346,6 +358,17 @@ def main():
     if not b["props_ok"]:
         failing_theorem = coq_error_summary(b["props_out"])
         broken.append("proof obligation no longer checks: " + failing_theorem)
+    leaf_ok = 0
+    for tgt, (ok, lout) in sorted(b.get("leaf", {}).items()):
+        if ok:
+            leaf_ok += 1
+        else:
+            broken.append("leaf equivalence (model function = function regenerated from the Rust source) no longer checks: %s: %s" %
+                          (tgt, coq_error_summary(lout)))
+    lf = (tr.get("leaf") or {}).get("failed") or {}
+    mine = [n for n in lf if n in cfg.get("leaf_functions", [])]
+    if mine:
+        broken.append("leaf translator could not translate: " + "; ".join("%s (%s)" % (n, lf[n][:120]) for n in mine))
     audit_res = {}
     if b["props_ok"]:
         rc, aout, audit_res = audit(cfg, prop)
@@ -478,7 +501,7 @@ def main():
     evidence = {
         "property_id": prop, "tier": tier, "seed": seed, "level": "proof",
         "coverage": {
-            "obligations": len(theorems), "discharged": discharged,
+            "obligations": len(theorems) + len(b.get("leaf", {})), "discharged": discharged + leaf_ok,
             "checker_cmd": "make -C /verif/coq %s && coqc audit (Print Assumptions) && coqc work/%s/cases_*.v" % (cfg["coq_target"], prop),
             "trusted_base": trusted,
             "theorems": theorems,
@@ -491,7 +514,9 @@ def main():
             "counters": summary.get("counters", {}),
             "generator_notes": summary.get("notes", []),
             "impl_panics_caught": summary.get("impl_panics", 0),
-            "translator": {"constants": tr.get("constants"), "anchors": tr.get("anchors"), "shape": tr.get("shape")},
+            "translator": {"constants": tr.get("constants"), "anchors": tr.get("anchors"), "shape": tr.get("shape"),
+                           "leaf_functions_regenerated": cfg.get("leaf_functions", []),
+                           "leaf_equivalence_targets": {k: v[0] for k, v in b.get("leaf", {}).items()}},
             "search_cases": searched,
             "partial": cfg.get("partial", []),
             "notes": notes,
